@@ -469,6 +469,10 @@ func vGenTrigger(tp *verifsim.Tape, seq int) *vTrig {
 }
 
 func vScenarioC06(rc *runCtx) {
+	if rc.param("slowwrite", "0") == "1" {
+		vC06SlowWrite(rc)
+		return
+	}
 	if rc.param("relaycc", "0") == "1" {
 		vC06RelayCC(rc)
 		return
